@@ -9,12 +9,15 @@
    run on purely combinatorial data.  Executable; proofs live in C07/Proofs*.v.
    Python exceptions are results [Err _]; float division by an exact zero is
    ZeroDivisionError; a [while] iteration of hexVertices that finds no new side
-   leaves the state unchanged, i.e. the Python loop never ends: [Err ELoop]. *)
+   leaves the state unchanged, i.e. the Python loop never ends: [Err ELoop].
+   Also, from Kernel/Volume/CellConversion.py develop_lattice: the test of the
+   FILL ranges against the number of base vectors ([domain_check]) and
+   Lattice.latticeVector (the translation of element (i, j, k)). *)
 From Coq Require Import List Arith ZArith Bool.
 From T4V Require Import Base.Scalar.
 Import ListNotations.
 
-Inductive err := EZeroDiv | ELattice | EAssert | ELoop | EStop.
+Inductive err := EZeroDiv | ELattice | EAssert | ELoop | EStop | EIndex.
 Inductive res (A : Type) := Ok (a : A) | Err (e : err).
 Arguments Ok {A}. Arguments Err {A}.
 
@@ -272,3 +275,50 @@ Section Num.
         end
     end.
 End Num.
+
+(* ---------------------------------------------------------------------- *)
+(* develop_lattice: the ranges against the base vectors, the translation   *)
+(* ---------------------------------------------------------------------- *)
+
+(* x[0] != x[1] *)
+Definition nontrivial (r : Z * Z) : bool := negb (Z.eqb (fst r) (snd r)).
+
+(* LatticeBounds.dims() *)
+Definition bounds_dims (bounds : list (Z * Z)) : nat := List.length (filter nontrivial bounds).
+
+(* for i in range(n): range_ = domain.bounds[-1 - i]; raise if not trivial *)
+Fixpoint missing_loop (bounds : list (Z * Z)) (n i : nat) : res unit :=
+  match n with
+  | O => Ok tt
+  | S m =>
+      match nth_error (rev bounds) i with
+      | None => Err EIndex
+      | Some r => if nontrivial r then Err ELattice else missing_loop bounds m (S i)
+      end
+  end.
+
+(* if len(lat_base_vectors) != len(domain.bounds): ... ; [range(n)] is empty
+   for n <= 0, and n_missing_bounds = len(lat_base_vectors) - len(domain.bounds) *)
+Definition domain_check (nvec : nat) (bounds : list (Z * Z)) : res unit :=
+  if Nat.eqb nvec (List.length bounds) then Ok tt
+  else if negb (Nat.eqb nvec (bounds_dims bounds)) then Err ELattice
+  else missing_loop bounds (Z.to_nat (Z.of_nat nvec - Z.of_nat (List.length bounds))) 0.
+
+Section LatVec.
+  Context {T : Type} (S : Scalar T).
+
+  (* rescale(float(i), vec) for i, vec in zip(index, base_vecs) *)
+  Fixpoint lattice_terms (base : list (vec (T:=T))) (index : list Z) : list (vec (T:=T)) :=
+    match base, index with
+    | b :: bs, i :: js => rescale S (sofZ S i) b :: lattice_terms bs js
+    | _, _ => []
+    end.
+
+  (* vsum over the argument list: accumulators start at 0. *)
+  Definition vsum_list (l : list (vec (T:=T))) : vec (T:=T) :=
+    fold_left (fun acc v => (sadd S (vx acc) (vx v), sadd S (vy acc) (vy v), sadd S (vz acc) (vz v)))
+              l (vzero S).
+
+  Definition latticeVector (base : list (vec (T:=T))) (index : list Z) : vec (T:=T) :=
+    vsum_list (lattice_terms base index).
+End LatVec.
